@@ -144,16 +144,42 @@ def run_py(lines, jobs=8):
 
 
 def run_spec(lines):
+    """pyrun answers line by line (flushed); a line it does not answer within the budget (a result whose value cannot be
+    read in finite time) gets the verdict 'viol unreadable ...' and the run resumes after it (as common.run_model)"""
     exe = os.path.join(BCPY, 'pyrun')
-    p = subprocess.run('ulimit -s unlimited 2>/dev/null; exec ' + exe, shell=True, input='\n'.join(lines) + '\n',
-                       stdout=subprocess.PIPE, stderr=subprocess.PIPE, text=True, timeout=3600)
     out = {}
-    for ol in p.stdout.splitlines():
-        m = LINE_ID.match(ol)
-        if m:
-            out[m.group(1)] = ol[len(m.group(1)) + 2:-1]
-    if p.returncode != 0:
-        raise RuntimeError('pyrun failed rc=%s: %s' % (p.returncode, p.stderr[-2000:]))
+    rest = list(lines)
+    stuck = 0
+    while rest:
+        budget = 20 + 0.002 * len(rest)
+        try:
+            p = subprocess.run('ulimit -s unlimited 2>/dev/null; exec ' + exe, shell=True, input='\n'.join(rest) + '\n',
+                               stdout=subprocess.PIPE, stderr=subprocess.PIPE, text=True, timeout=budget)
+            stdout, rc, timed_out, err = p.stdout, p.returncode, False, p.stderr
+        except subprocess.TimeoutExpired as e:
+            stdout = e.stdout.decode('utf-8', 'replace') if isinstance(e.stdout, bytes) else (e.stdout or '')
+            rc, timed_out, err = None, True, ''
+        for ol in stdout.splitlines():
+            m = LINE_ID.match(ol)
+            if m:
+                out[m.group(1)] = ol[len(m.group(1)) + 2:-1]
+        if not timed_out:
+            if rc != 0:
+                raise RuntimeError('pyrun failed rc=%s: %s' % (rc, err[-2000:]))
+            break
+        k = 0
+        while k < len(rest) and LINE_ID.match(rest[k]).group(1) in out:
+            k += 1
+        if k >= len(rest):
+            break
+        stuck += 1
+        out[LINE_ID.match(rest[k]).group(1)] = ('viol unreadable (the value of the result could not be computed within %d s: '
+                                                'not a readable array)' % int(budget))
+        rest = rest[k + 1:]
+        if stuck >= 3:
+            for l in rest:
+                out[LINE_ID.match(l).group(1)] = 'bad (pyrun stopped answering repeatedly)'
+            break
     return out
 
 
